@@ -165,7 +165,7 @@ impl Property for C03 {
         "C03"
     }
     fn rule(&self) -> String {
-        "Generated: (language, text, repeat, threshold) with text drawn from any::<String>(), \\PC*, whitespace-only, hyphen/apostrophe-only, a pool of hostile fragments (combining marks, non-Latin digits, ZWSP, BOM, NUL, ß, İ, ligatures, line separators), and the dirty sentence generator (vocabulary words glued, truncated, recased); 1 in 17 texts has an exact byte length of 2^k-4 .. 2^k+1 (k = 4..10, 12, 16) reached by padding with characters whose lowercase / uppercase form is longer than they are (İ Ⱥ Ⱦ ß ŉ ﬁ ǰ), multi-byte letters, a combining mark, an emoji; repeat up to 2000 for long inputs; thresholds incl. NaN, ±inf, negative, subnormal. Every entry point (text2digits, replace_numbers_in_text, find_numbers, find_numbers_iter drained then polled twice, replace_numbers_in_stream on whitespace-split own tokens and on own tokens whose lowercase form is normalised (punctuation stripped, possibly empty), the lazy search over the text's tokens followed by usize::MAX ordinary tokens, exec_group on the words as they are and on the text split on single spaces, get_interpreter_for) is called under catch_unwind; text2digits must answer Err for texts without any alphanumeric character and never Ok(\"\"). Enumerated: every string of length <= 3 over a 9-character alphabet x 7 languages. Whole-run procedure: 29 very long inputs (400 000 / 2 000 000 repetitions of ordinary words, punctuation, hyphens, apostrophes, whitespace, conjunction/separator words; 8 000 / 40 000 repetitions of number words, decimals, ordinals; one-token hyphen chains and German/Italian/Dutch glued compounds of that length) are run through text2digits, replace_numbers_in_text, find_numbers and find_numbers_iter in a child process on a default 2 MiB thread stack; the child being killed (stack overflow, abort) or panicking is a violation attributed to the running input; exceeding the time cap is inconclusive. Non-trivial = distinct (lang,text) with no alphanumeric char, or a multi-byte char, or a hyphen/apostrophe at a token edge, or total length > 1000, or a non-finite threshold.".into()
+        "Generated: (language, text, repeat, threshold) with text drawn from any::<String>(), \\PC*, whitespace-only, hyphen/apostrophe-only, a pool of hostile fragments (combining marks, non-Latin digits, ZWSP, BOM, NUL, ß, İ, ligatures, line separators), and the dirty sentence generator (vocabulary words glued, truncated, recased); 1 in 17 texts has an exact byte length of 2^k-4 .. 2^k+1 (k = 4..10, 12, 16) reached by padding with characters whose lowercase / uppercase form is longer than they are (İ Ⱥ Ⱦ ß ŉ ﬁ ǰ), multi-byte letters, a combining mark, an emoji; repeat up to 2000 for long inputs (capped at 200 kB in total); thresholds incl. NaN, ±inf, negative, subnormal. Every entry point (text2digits, replace_numbers_in_text, find_numbers, find_numbers_iter drained then polled twice, replace_numbers_in_stream on whitespace-split own tokens and on own tokens whose lowercase form is normalised (punctuation stripped, possibly empty), the lazy search over the text's tokens followed by usize::MAX ordinary tokens, exec_group on the words as they are and on the text split on single spaces, get_interpreter_for) is called under catch_unwind; text2digits must answer Err for texts without any alphanumeric character and never Ok(\"\"). Enumerated: every string of length <= 3 over a 9-character alphabet x 7 languages. Whole-run procedure: 29 very long inputs (400 000 / 2 000 000 repetitions of ordinary words, punctuation, hyphens, apostrophes, whitespace, conjunction/separator words; 8 000 / 40 000 repetitions of number words, decimals, ordinals; one-token hyphen chains and German/Italian/Dutch glued compounds of that length) are run through text2digits, replace_numbers_in_text, find_numbers and find_numbers_iter in a child process on a default 2 MiB thread stack; the child being killed (stack overflow, abort) or panicking is a violation attributed to the running input; exceeding the time cap is inconclusive. Non-trivial = distinct (lang,text) with no alphanumeric char, or a multi-byte char, or a hyphen/apostrophe at a token edge, or total length > 1000, or a non-finite threshold.".into()
     }
     fn assumptions(&self) -> Vec<String> {
         vec!["non-termination would show as the watchdog expiring (exit 2, inconclusive), not as a violation".into()]
@@ -204,9 +204,10 @@ impl Property for C03 {
             }
             t
         });
-        let text = prop_oneof![16 => text, 1 => sized];
         let repeat = prop_oneof![60 => Just(1u32), 4 => 2u32..6, 1 => 100u32..2000];
-        (lang_strategy(), text, repeat, threshold_strategy()).prop_map(|(lang, text, repeat, th_bits)| Case { lang, text, repeat, th_bits }).boxed()
+        // (the exact-length texts are never repeated: their length is the point)
+        let text_repeat = prop_oneof![16 => (text, repeat), 1 => (sized, Just(1u32))];
+        (lang_strategy(), text_repeat, threshold_strategy()).prop_map(|(lang, (text, repeat), th_bits)| Case { lang, text, repeat, th_bits }).boxed()
     }
     fn cases(&self, tier: Tier) -> u64 {
         tier.pick(250_000, 4_000_000)
@@ -293,7 +294,10 @@ impl Property for C03 {
         ))
     }
     fn check(&self, c: &Case, obs: &mut Obs) -> Result<(), String> {
-        let text = if c.repeat <= 1 { c.text.clone() } else { c.text.repeat(c.repeat as usize) };
+        // repeated texts are capped at ~200 kB (a run of 10^5 dictated digits costs the library a minute through
+        // fourteen entry points; the really long inputs are the business of the child-process procedure)
+        let reps = (c.repeat as usize).min((200_000 / c.text.len().max(1)).max(1));
+        let text = if reps <= 1 { c.text.clone() } else { c.text.repeat(reps) };
         let th = th_of(c.th_bits);
         let n = all_entry_points(&c.lang, &text, th)?;
         let no_alnum = !text.chars().any(|ch| ch.is_alphanumeric());
